@@ -45,6 +45,7 @@ int __real_nsync_wait_n (void *, void (*) (void *), void (*) (void *), nsync_tim
 extern void (*vf_lockann_hook) (void *mu, int acquired, int write);
 extern int (*vf_victim_may_run_hook) (void);
 extern void (*vf_sem_sleep_hook) (int tid);
+extern void (*vf_requeue_hook) (int tid);
 void *vf_once_sync_base (void);
 size_t vf_once_sync_stride (void);
 void *vf_pool_mu_addr (void);
@@ -87,11 +88,17 @@ static int expect_stuck_ok;
 static int nfibers_total;
 /* C14: how often a fiber goes to sleep inside ONE nsync_mu_lock / nsync_mu_rlock call */
 static void sem_sleep (int tid) { if (tid >= 0 && tid < 16 && in_lock_call[tid]) { sleeps_in_lock[tid]++; } }
+/* … and how often it queues itself again inside one call (= how often it lost the race: with an early wake-up it
+   does not even reach the semaphore) */
+static int requeues_in_lock[16];
+static void requeue (int tid) { if (tid >= 0 && tid < 16 && in_lock_call[tid]) { requeues_in_lock[tid]++; } }
 /* adversarial scheduling: the victim (fiber 0) may run only while mu0 is held by somebody */
 static int victim_may_run (void) { uint32_t w = *(volatile uint32_t *) &mus[0]; return ((w & (MU_WLOCK | MU_RLOCK_FIELD)) != 0); }
 static void check_starved (int me, const char *api) {
 	if (sleeps_in_lock[me] > LONG_WAIT_THRESHOLD + nfibers_total + 6) {
 		vf_violation ("starved", "%s: the caller was sent back to sleep %d times in one call (more than LONG_WAIT_THRESHOLD + number of threads)", api, sleeps_in_lock[me]);
+	} else if (requeues_in_lock[me] > LONG_WAIT_THRESHOLD + nfibers_total + 6) {
+		vf_violation ("starved", "%s: the caller lost the race and queued itself again %d times in one call (more than LONG_WAIT_THRESHOLD + number of threads)", api, requeues_in_lock[me]);
 	}
 }
 static int mu_index (void *mu) { int i; for (i = 0; i != nmu; i++) { if ((void *) &mus[i] == mu) { return (i); } } return (-1); }
@@ -163,7 +170,6 @@ static void check_wait_result (const char *api, int res, struct op *o, nsync_not
    API return: fibers switch only at atomic operations, so the snapshot is a consistent memory state
    that the Note model must reproduce exactly. */
 static int cv_wakes[MAXOBJ], cv_done[MAXOBJ]; /* signal / broadcast calls started / finished on each cv */
-static int born_notified[MAXOBJ];  /* the note was already notified when it was created (own deadline past, or parent notified/born notified) */
 static int64_t exp_min[MAXOBJ];   /* min of the deadlines from the note to its root, as given at creation */
 static int nnotes_seen;
 static nsync_note all_notes[64];
@@ -192,8 +198,8 @@ static void run_prog (void *arg) {
 	for (i = 0; i != p->n; i++) {
 		struct op *o = &p->ops[i];
 		switch (o->code) {
-		case OP_LOCK: vf_log ("call nsync_mu_lock mu%d", o->a); in_lock_call[me] = 1; sleeps_in_lock[me] = 0; vf_api_enter (); nsync_mu_lock (&mus[o->a]); vf_api_leave (); in_lock_call[me] = 0; check_starved (me, "nsync_mu_lock"); shadow_acq (o->a, 1); vf_log ("ret nsync_mu_lock -"); break;
-		case OP_RLOCK: vf_log ("call nsync_mu_rlock mu%d", o->a); in_lock_call[me] = 1; sleeps_in_lock[me] = 0; vf_api_enter (); nsync_mu_rlock (&mus[o->a]); vf_api_leave (); in_lock_call[me] = 0; check_starved (me, "nsync_mu_rlock"); shadow_acq (o->a, 0); vf_log ("ret nsync_mu_rlock -"); break;
+		case OP_LOCK: vf_log ("call nsync_mu_lock mu%d", o->a); in_lock_call[me] = 1; sleeps_in_lock[me] = 0; requeues_in_lock[me] = 0; vf_api_enter (); nsync_mu_lock (&mus[o->a]); vf_api_leave (); in_lock_call[me] = 0; check_starved (me, "nsync_mu_lock"); shadow_acq (o->a, 1); vf_log ("ret nsync_mu_lock -"); break;
+		case OP_RLOCK: vf_log ("call nsync_mu_rlock mu%d", o->a); in_lock_call[me] = 1; sleeps_in_lock[me] = 0; requeues_in_lock[me] = 0; vf_api_enter (); nsync_mu_rlock (&mus[o->a]); vf_api_leave (); in_lock_call[me] = 0; check_starved (me, "nsync_mu_rlock"); shadow_acq (o->a, 0); vf_log ("ret nsync_mu_rlock -"); break;
 		case OP_UNLOCK: vf_log ("call nsync_mu_unlock mu%d", o->a); shadow_rel (o->a, 1); vf_api_enter (); nsync_mu_unlock (&mus[o->a]); vf_api_leave (); vf_log ("ret nsync_mu_unlock -"); break;
 		case OP_UNLOCK_NW: vf_log ("call nsync_mu_unlock_without_wakeup mu%d", o->a); shadow_rel (o->a, 1); vf_api_enter (); nsync_mu_unlock_without_wakeup (&mus[o->a]); vf_api_leave (); vf_log ("ret nsync_mu_unlock_without_wakeup -"); break;
 		case OP_RUNLOCK: vf_log ("call nsync_mu_runlock mu%d", o->a); shadow_rel (o->a, 0); vf_api_enter (); nsync_mu_runlock (&mus[o->a]); vf_api_leave (); vf_log ("ret nsync_mu_runlock -"); break;
@@ -250,7 +256,6 @@ static void run_prog (void *arg) {
 			nsync_time t = mk_deadline (o, dt, sizeof (dt)); nsync_note par = o->b >= 0 ? notes[o->b] : NULL;
 			vf_log ("call nsync_note_new %s %s", par ? vf_name_of (par) : "-", dt);
 			exp_min[o->a] = dl_ns (o); if (o->b >= 0 && exp_min[o->b] < exp_min[o->a]) { exp_min[o->a] = exp_min[o->b]; }
-			born_notified[o->a] = (dl_ns (o) <= vf_now ()) || (o->b >= 0 && (born_notified[o->b] || (par != NULL && (note_flag (par) || exp_min[o->b] <= vf_now ()))));
 			vf_api_enter (); notes[o->a] = nsync_note_new (par, t); vf_api_leave ();
 			vf_log ("ret nsync_note_new %s", notes[o->a] ? vf_name_of (notes[o->a]) : "NULL");
 			remember_note (notes[o->a]); dump_notes ();
@@ -263,7 +268,7 @@ static void run_prog (void *arg) {
 		case OP_NOTE_FREE: if (notes[o->a]) { nsync_note n = notes[o->a]; vf_log ("call nsync_note_free %s", vf_name_of (n)); notes[o->a] = NULL; forget_note (n); vf_api_enter (); nsync_note_free (n); vf_api_leave (); vf_log ("ret nsync_note_free -"); dump_notes (); } break;
 		case OP_NOTE_EXPIRY: if (notes[o->a]) { nsync_time t; vf_log ("call nsync_note_expiry %s", vf_name_of (notes[o->a])); t = nsync_note_expiry (notes[o->a]); vf_log ("ret nsync_note_expiry %lld:%ld", (long long) NSYNC_TIME_SEC (t), (long) NSYNC_TIME_NSEC (t));
 				{ int64_t got = nsync_time_cmp (t, nsync_time_no_deadline) == 0 ? INT64_MAX : (int64_t) NSYNC_TIME_SEC (t) * 1000000000 + NSYNC_TIME_NSEC (t);
-				  if (got != exp_min[o->a]) { vf_violation (born_notified[o->a] ? "expiry-min-born-notified" : "expiry-min", "nsync_note_expiry = %lld but the minimum of the deadlines from the note to its root is %lld", (long long) got, (long long) exp_min[o->a]); } } } break;
+				  if (got != exp_min[o->a]) { vf_violation ("expiry-min", "nsync_note_expiry = %lld but the minimum of the deadlines from the note to its root is %lld", (long long) got, (long long) exp_min[o->a]); } } } break;
 		case OP_CTR_NEW: vf_log ("call nsync_counter_new %d", o->b); vf_api_enter (); ctrs[o->a] = nsync_counter_new ((uint32_t) o->b); vf_api_leave (); vf_log ("ret nsync_counter_new %s", ctrs[o->a] ? vf_name_of (ctrs[o->a]) : "NULL"); break;
 		case OP_CTR_ADD: if (ctrs[o->a]) { uint32_t r; vf_log ("call nsync_counter_add %s %d", vf_name_of (ctrs[o->a]), o->b); vf_api_enter (); r = nsync_counter_add (ctrs[o->a], o->b); vf_api_leave (); vf_log ("ret nsync_counter_add %u", r); } break;
 		case OP_CTR_VALUE: if (ctrs[o->a]) { uint32_t r; vf_log ("call nsync_counter_value %s", vf_name_of (ctrs[o->a])); vf_api_enter (); r = nsync_counter_value (ctrs[o->a]); vf_api_leave (); vf_log ("ret nsync_counter_value %u", r); } break;
@@ -491,7 +496,7 @@ static int run_one (char **lines, int nlines, struct vf_config *cfg, FILE *out) 
 	if (parse_scenario (lines, nlines) != 0) { return (98); }
 	cfg->binary_sem = sem_binary;
 	vf_init (cfg);
-	vf_lockann_hook = &lockann; vf_victim_may_run_hook = &victim_may_run; vf_sem_sleep_hook = &sem_sleep; nfibers_total = nprogs;
+	vf_lockann_hook = &lockann; vf_victim_may_run_hook = &victim_may_run; vf_sem_sleep_hook = &sem_sleep; vf_requeue_hook = &requeue; nfibers_total = nprogs;
 	vf_log_env ("tick %lld", (long long) START_NS);
 	{ /* register the once_sync slots of once.c */
 		char *base = (char *) vf_once_sync_base (); size_t st = vf_once_sync_stride (); int k;
